@@ -115,23 +115,37 @@ def run(pid, units, results, seed):
             if not r["rejected"]:
                 und.append("lemma canary: `assert(false)` at the end of %s (%s) was NOT rejected: %s" % (name, u, r["detail"]))
     ev["lemma_canaries"] = dict(total=len(rows), rejected=sum(1 for r in rows if r["rejected"]))
-    # 3. broken variants
-    muts = [m for m in load_mutants() if m["unit"] in units]
+    # 3. broken variants (each is also run in every unit that *includes* the mutated unit, to catch
+    #    brittle proofs: under modular verification only the mutated function itself may fail)
+    muts = load_mutants()
     mrows = []
-    with concurrent.futures.ThreadPoolExecutor(max_workers=8) as ex:
+    jobs = []
+    for m in muts:
+        for u in units:
+            inc = results[u]["meta"].get("includes", [])
+            if u == m["unit"] or m["unit"] in inc or any(m["unit"] in X.parse_spec(V.unit_spec(i)).includes for i in inc):
+                jobs.append((m, u))
+    with concurrent.futures.ThreadPoolExecutor(max_workers=10) as ex:
         futs = []
-        for m in muts:
+        for m, u in jobs:
             subst = {m["file"]: [(m["old"], m["new"])]}
-            futs.append((m, ex.submit(V.run_unit, m["unit"], "mut/" + m["name"], subst)))
-        for m, fu in futs:
+            futs.append((m, u, ex.submit(V.run_unit, u, "mut/%s/%s" % (m["name"], u), subst)))
+        for m, u, fu in futs:
             r = fu.result()
             ids = [f["id"] for f in r.get("failures", [])]
             hit = [i for i in ids if m["expect"] in i]
-            mrows.append(dict(name=m["name"], unit=m["unit"], status=r["status"], expected=m["expect"], caught=bool(hit), failed=ids[:6]))
+            mutated_fn = "/".join(m["expect"].split("/")[:2])
+            collateral = [i for i in ids if not i.startswith(mutated_fn + "/") and not i.startswith(mutated_fn)]
+            mrows.append(dict(name=m["name"], run_in_unit=u, status=r["status"], expected=m["expect"], caught=bool(hit),
+                              failed=ids[:6], collateral=collateral[:4]))
             if r["status"] == "extract-error":
                 und.append("broken variant %s: anchor lost (%s)" % (m["name"], r.get("detail")))
-            elif not hit:
+            elif r["status"] in ("tool-error", "timeout"):
+                und.append("broken variant %s in %s: %s" % (m["name"], u, r["status"]))
+            elif u == m["unit"] and not hit:
                 und.append("broken variant %s was NOT rejected at %s (status %s, failed: %s)" % (m["name"], m["expect"], r["status"], ids[:3]))
+            if collateral:
+                und.append("brittle proof: broken variant %s (in %s) also makes unrelated obligations fail in unit %s: %s" % (m["name"], mutated_fn, u, collateral[:3]))
     ev["broken_variants"] = mrows
     # 4. twin sanity
     try:
